@@ -40,6 +40,14 @@ Theorem C10_rule_removes_only_orphans :
     (exists o rest, fit_orphans (i_fit inp) = o :: rest /\ p_store o = s) /\ forallb rf_satisfied (fit_rules (i_fit inp)) = true.
 Proof. exact rule_removes_only_orphans. Qed.
 
+(* ... an orphan in earnest: when the fit handed to the checker is a partition of the region's peers (fit_wf - the monitor evaluates it
+   on every fit read from the real FitRegion, signature C10:fit-is-not-a-partition-of-the-peers) no rule holds the removed peer *)
+Theorem C10_rule_removal_not_held :
+  forall inp st s, fit_wf (i_region inp) (i_fit inp) = true -> In (Some (st, ARemove s)) (rule_check inp) ->
+    exists o, In o (fit_orphans (i_fit inp)) /\ p_store o = s /\
+              forall rf, In rf (fit_rules (i_fit inp)) -> ~ In (p_id o) (map p_id (rf_peers rf)).
+Proof. exact rule_removal_not_held. Qed.
+
 (* ... and the same through CheckerController.CheckRegion (joint-state checker and learner checker in front) *)
 Theorem C10_controller_removes_only_justified :
   forall inp st s, In (Some (st, ARemove s)) (controller_check inp) ->
@@ -116,6 +124,7 @@ Print Assumptions C10_add_target_good.
 Print Assumptions C10_checker_targets_good.
 Print Assumptions C10_replica_removes_only_surplus.
 Print Assumptions C10_rule_removes_only_orphans.
+Print Assumptions C10_rule_removal_not_held.
 Print Assumptions C10_controller_removes_only_justified.
 Print Assumptions C10_controller_origin.
 Print Assumptions C10_merge_only_when_settled.
